@@ -155,6 +155,8 @@ def check(prop, tier, seed):
             prop, mod.HEADER, mod.CASE_TYPE, mod.MODEL, mod.EQB, cases, getattr(mod, "SHARD", 400),
             ood_term=getattr(mod, "OOD", None)
         )
+        if len(cases) >= 50 and C.LAST_CANARY[0][1] > 0 and C.LAST_CANARY[0][0] == 0 and not corr_errors:
+            corr_errors = ["self-test: in no shard does the comparison tell two cases apart - it accepts everything or all observations are equal"]
     else:
         corr_errors = ["model files did not compile: " + mk_log[-2000:]]
 
@@ -249,6 +251,7 @@ def check(prop, tier, seed):
             "exhaustive": bool(getattr(mod, "EXHAUSTIVE", {}).get(tier, False)),
             "correspondence_mismatches": len(corr_bad),
             "out_of_domain": C.LAST_OOD[0],
+            "comparison_self_test": "in %d of %d shards the model's observation for one input differs from the recorded observation of another case (the comparison can tell cases apart)" % tuple(C.LAST_CANARY[0]),
             "direct_oracle_failures": len(oracle_failures),
             "known_findings_seen": sorted(seen_known),
             "input_distribution": dist,
